@@ -8,10 +8,22 @@ from collections import Counter
 from fractions import Fraction
 
 
+class _Undef:
+    def __repr__(self):
+        return "UNDEF"
+
+
+UNDEF = _Undef()
+
+
 def spec_value(v):
     """JSON value emitted by TLC -> python value (None, bool, int, Fraction, str)."""
     if v == "NULL":
         return None
+    if v == "UNDEF":
+        return UNDEF
+    if isinstance(v, list):      # text as a sequence of code points
+        return "".join(chr(c) for c in v)
     if isinstance(v, dict) and set(v) == {"n", "d"}:
         return Fraction(v["n"], v["d"])
     return v
@@ -109,6 +121,33 @@ def compare_rows(expected, actual, tys, cls):
     for (lo, hi) in classes_chunks(cls):
         if Counter(e[lo:hi]) != Counter(a[lo:hi]):
             return ("order", f"rows {lo}..{hi - 1}: expected {e[lo:hi]} got {a[lo:hi]}")
+    return None
+
+
+def has_undef(rows):
+    return any(v is UNDEF for r in rows for v in r)
+
+
+def compare_aligned(expected, actual, tys, key):
+    """Operator tables: rows are matched by the unique key column `key`; cells the specification leaves
+    UNDEF (outside the backend-independent fragment) are not compared."""
+    if len(expected) != len(actual):
+        return ("rows", f"row count {len(actual)} != expected {len(expected)}")
+    amap = {r[key]: r for r in actual}
+    if len(amap) != len(actual):
+        return ("rows", "key column is not unique in the exported frame")
+    bad = []
+    for er in expected:
+        ar = amap.get(er[key])
+        if ar is None:
+            return ("rows", f"row with key {er[key]} missing")
+        for i, (ev, av) in enumerate(zip(er, ar)):
+            if ev is UNDEF:
+                continue
+            if canon(ev, tys[i] if tys else None) != canon(av, tys[i] if tys else None):
+                bad.append((er[key], i, ev, av, [x for j, x in enumerate(er) if j != i and x is not UNDEF][:6]))
+    if bad:
+        return ("rows", "cells differ (key, column index, expected, got, row): " + "; ".join(map(str, bad[:5])) + f" ... {len(bad)} cell(s)")
     return None
 
 
